@@ -164,6 +164,20 @@ func checkC06(c *Ctx) {
 			c.Count("cases_with_external_validator_installed", 1)
 		}
 		fmt.Sscanf(strings.TrimPrefix(cs.Name, "v:"), "enum:%d.%d.%d", &n, &p0, &p1)
+		// files that spell out members with nothing in them and declare the oldest version
+		for i, doc := range []string{
+			`{"cdiVersion":"0.3.0","kind":"vendor.com/cls","annotations":{},"containerEdits":{},"devices":[{"name":"d0","annotations":{},"containerEdits":{"env":["A=1"],"additionalGids":[],"mounts":[],"deviceNodes":[],"hooks":[]}}]}`,
+			"cdiVersion: 0.3.0\nkind: vendor.com/cls\nannotations: {}\ncontainerEdits: {}\ndevices:\n- name: d0\n  annotations: {}\n  containerEdits:\n    env: [\"A=1\"]\n    additionalGids: []\n    mounts: []\n    deviceNodes: []\n    hooks: []\n",
+		} {
+			path := filepath.Join(dir, sanitize(cs.Name)+"-empty-members."+[]string{"json", "yaml"}[i])
+			must(os.WriteFile(path, []byte(doc), 0o644))
+			_, rerr := cdi.ReadSpec(path, 0)
+			c.Count("readspec_empty_members", 1)
+			if rerr != nil {
+				cs.Violation("readspec", map[string]string{"declared": "0.3.0", "empty_members": "true"}, fmt.Sprintf("ReadSpec of a document declaring 0.3.0 whose only extras are empty members (annotations: {}, additionalGids: [], ...): %v", rerr), map[string]any{"file": doc})
+				return
+			}
+		}
 		perms := permutations(n)
 		place := make([]int, len(c06Features))
 		place[0], place[1] = p0, p1
@@ -282,6 +296,49 @@ func checkC06(c *Ctx) {
 							cs.Violation("minimum", map[string]string{"want": want, "got": g, "name": nm}, fmt.Sprintf("MinimumRequiredVersion = %s with device %d named %q, features used require %s (n=%d placement=%v)", g, k, nm, want, n, place), wit())
 							return
 						}
+					}
+				}
+				// members that are there but empty use no feature: an empty annotations object,
+				// empty lists of edits and of additional GIDs, at Spec level and in every device
+				{
+					ns := cloneSpec(s)
+					deco := func(e *specs.ContainerEdits) {
+						if e.Env == nil {
+							e.Env = []string{}
+						}
+						if e.DeviceNodes == nil {
+							e.DeviceNodes = []*specs.DeviceNode{}
+						}
+						if e.Hooks == nil {
+							e.Hooks = []*specs.Hook{}
+						}
+						if e.Mounts == nil {
+							e.Mounts = []*specs.Mount{}
+						}
+						if e.AdditionalGIDs == nil {
+							e.AdditionalGIDs = []uint32{}
+						}
+						for _, m := range e.Mounts {
+							if m.Options == nil {
+								m.Options = []string{}
+							}
+						}
+					}
+					if ns.Annotations == nil {
+						ns.Annotations = map[string]string{}
+					}
+					deco(&ns.ContainerEdits)
+					for i := range ns.Devices {
+						if ns.Devices[i].Annotations == nil {
+							ns.Devices[i].Annotations = map[string]string{}
+						}
+						deco(&ns.Devices[i].ContainerEdits)
+					}
+					g, _ := specs.MinimumRequiredVersion(ns)
+					c.Count("queries_with_empty_members", 1)
+					if g != want {
+						cs.Violation("minimum", map[string]string{"want": want, "got": g, "empty_members": "true"}, fmt.Sprintf("MinimumRequiredVersion = %s once empty annotation objects and empty lists are added, the features used still require %s (n=%d placement=%v)", g, want, n, place), map[string]any{"w": wit(), "spec_with_empty_members": ns})
+						return
 					}
 				}
 				{
